@@ -344,7 +344,7 @@ impl Property for C08 {
         "C08"
     }
     fn rule(&self) -> String {
-        "the real Server (router + lifecycle + concurrency layers) in-process over an in-memory pipe. Uncontrolled part: bursts of 3..9 operations (didOpen/didChange of root and included document back to back, each of the 8 request kinds, sub-3ms pauses) on documents of 1..300 classes, all 8x2 'change then request' pairs enumerated; every request and a final barrier request must be answered. A missing answer is a deadlock only with evidence: all server threads asleep with unchanged context-switch counters over 4 samples (else inconclusive). distinct = digest of the operation list; non-trivial = >=2 document notifications in flight with >=1 request".into()
+        "the real Server (router + lifecycle + concurrency layers) in-process over an in-memory pipe. Controlled part: per scenario - handler under test in {change root, change included document, open included document, re-send identical text} against the still-parked diagnostics task of the previous notification and {no request | one of the 8 request kinds} - every interleaving of the schedule points (verif hooks) with at most 1 preemption (thorough: 3) is enumerated by stateless DFS; a released thread that does not reach its next point is classified running/blocked from /proc; deadlock = no actor can be released while some are blocked. Uncontrolled part: bursts of 3..9 operations (didOpen/didChange of root and included document back to back, each of the 8 request kinds, sub-3ms pauses) on documents of 1..300 classes, all 8x2 change-then-request pairs enumerated; every request and a final barrier request must be answered; a missing answer is a deadlock only with evidence (all server threads asleep with unchanged context-switch counters over 4 samples), else inconclusive. distinct = digest of the schedule / operation list; non-trivial = a step at which the handler and a task could both be released (controlled), >=2 document notifications in flight with >=1 request (bursts)".into()
     }
     fn assumptions(&self) -> Vec<String> {
         vec!["OS scheduling decides the interleaving in the uncontrolled part; liveness is checked as 'answers within the patience window', blocked-thread evidence from /proc/self/task".into()]
@@ -366,8 +366,8 @@ impl Property for C08 {
             .exhaustive(),
             {
                 // one chunk per scenario: handler x (no request | one of the 8 request kinds)
-                let bound = ctx.tier.pick(1usize, 2usize);
-                let max_per_scenario = ctx.tier.pick(60usize, 3000usize);
+                let bound = ctx.tier.pick(1usize, 3usize);
+                let max_per_scenario = ctx.tier.pick(60usize, 20000usize);
                 Family::new("controlled-schedules", (HANDLERS.len() * (REQUESTS.len() + 1)) as u64, move |chunk, _r, emit| {
                     let handler = HANDLERS[chunk as usize % HANDLERS.len()];
                     let ri = chunk as usize / HANDLERS.len();
